@@ -61,11 +61,23 @@ var ShortExps = [][]byte{
 	mustHex("8440c7deea2bb0c27082b0a3a0686ffe378fc61f2785b88f47047b49e30887dd1fbfd5c9452d2cca"),
 	mustHex("9bcff4e7af3e5cc6459e4cedeb1d19dfe3e3cad2e998eb67311474849fde336a67b1fef99d40886c"),
 	mustHex("5d5476fdce7e42e7aca7526bf926ac4e2526e38a8a5e3f9bad0f897290a0466cc499f437a752440e"),
+	mustHex("b80a7b3e029d89baae6e002804e3b507c28a946a391dd154925393dec6df10716f0b1575c2322c42"),
+	mustHex("7ba6b3fd7a46c192023ddc4b9cfee71977bf6cb92d59317048761baf78af63bf974e43d77146370c"),
+	mustHex("395ceba05561d6eab2fed6e3b22d444bb8339605fbfa6d1087d46793400bb36194157eefa91fe91a"),
+	mustHex("0c8d5b3c1c040875b370ecbe5023ba33914ab861a3c5e6d632bcbfdf1fc69bc71d7d10b7f51d50d3"),
+	mustHex("64cd67d68474c77d9cf025db1b90bef6bb4c8b1d366873bbd5ddeb375cf4d157eabd1fce008316ab"),
+	mustHex("51ac1ecea3e7fc3fc50f0030e077c1cbe78f1f66200539f5f151b5847aff447ea1dbd0dff6749e10"),
+	mustHex("83406b7c7deb2414074553a2146a33b7b1419b988452c95af4a78f78f6ab62ecb69dd0183f439248"),
+	mustHex("b046c8c3453b20e57cd34eb3aba8e388ac9939650df8f74ee0daf076a8707174deb2999b1f90fe14"),
+	mustHex("8efed75306661763a497daad9c41aaedd74c413f98b8527f8f3ba4ca3c56d00e5fac315ec256cb94"),
+	mustHex("01cf8fc1224b0b11869c4330abf8e71fa8f5a4ad5f560b7243580fa6beb4dc84f3fb98b3e4b0ade3"),
+	mustHex("6bc852cfdfbf55f95a481e67f09128d317a0d51e701c506aa5135bba6f50ff5a95bd6e232ebe7af6"),
+	mustHex("95497263da6f6fad913bd56452872ee6a2207eb362da52dbad518fef1ab7fc3c095ef687f4bfe687"),
 }
 
 // ArmShort makes the next 40-byte read of the source yield one of the short-public-value exponents. The two
 // parties of a world draw from disjoint halves of the list (two honest parties never hold the same key), and
-// each party walks through its half, so a repetition is six key generations away from the original.
+// each party walks through its half, so a repetition is twelve key generations away from the original.
 func (r *Rand) ArmShort(party int) {
 	half := len(ShortExps) / 2
 	r.Force40 = append(r.Force40, ShortExps[(party&1)*half+r.nShort%half])
